@@ -12,7 +12,8 @@ func init() { core.Register("C20", "model_checking", run) }
 func run(c *core.C) {
 	n := core.Pick(c, 6, 8)
 	d := core.Pick(c, 0, 2)
-	adv := core.Pick(c, 3, 4)
+	adv := core.Pick(c, 2, 4)
+	advs := core.Pick(c, 1, 2)
 	or := tmworld.Oracles{C20: true}
 	mk := func(p tmworld.Params, adv, rec int) *tmworld.Scenario {
 		return tmworld.New(tmworld.Config{P: p, MaxAdv: adv, MaxRec: rec, Mis: true}, or)
@@ -20,8 +21,8 @@ func run(c *core.C) {
 	parts := []ksim.Part{
 		{Name: "rev1/updates-only", Sc: mk(tmworld.Params{Rev: 1, Base: 0, N: n}, 0, 1), Cfg: ksim.Config{MaxDepth: 14 + d}, Share: 0.4},
 		{Name: "rev1/with-time", Sc: mk(tmworld.Params{Rev: 1, Base: 0, N: n}, adv, 1), Cfg: ksim.Config{MaxDepth: 5 + d}, Share: 0.7},
-		{Name: "rev1/heights-46..(47=0x2f)", Sc: mk(tmworld.Params{Rev: 1, Base: 45, N: n}, 2, 1), Cfg: ksim.Config{MaxDepth: 4 + d}, Share: 0.5},
-		{Name: "rev47/heights-12031..(12032=0x2f00)", Sc: mk(tmworld.Params{Rev: 47, Base: 12030, N: n}, 2, 1), Cfg: ksim.Config{MaxDepth: 4 + d}},
+		{Name: "rev1/heights-46..(47=0x2f)", Sc: mk(tmworld.Params{Rev: 1, Base: 45, N: n}, advs, 1), Cfg: ksim.Config{MaxDepth: 3 + d}, Share: 0.5},
+		{Name: "rev47/heights-12031..(12032=0x2f00)", Sc: mk(tmworld.Params{Rev: 47, Base: 12030, N: n}, advs, 1), Cfg: ksim.Config{MaxDepth: 3 + d}},
 	}
 	ksim.RunParts(c, parts, [][]ksim.Op{
 		{{K: "upd", A: []int{3, 0, 1}}, {K: "upd", A: []int{2, 0, 1}}, {K: "upd", A: []int{2, 0, 1}}, {K: "upd", A: []int{2, 1, 1}}},
